@@ -380,7 +380,12 @@ Section WithGraph.
             if negb (valid_dtype (itensor_dtype it)) then Raise ValueError else
             let v0 := mkIValue name (Some (ITensor (itensor_dtype it) None))
                                (Some (map (fun d => (IInt d, None)) (itensor_dims it))) None [] [] (Some it) in
-            v <- maybe_info vis name v0 ;;
+            v1 <- maybe_info vis name v0 ;;
+            (* a value_info entry without type / shape does not erase what the tensor provides *)
+            let v := mkIValue (v_name v1)
+                              (match v_type v1 with None => v_type v0 | t => t end)
+                              (match v_shape v1 with None => v_shape v0 | s => s end)
+                              (v_doc v1) (v_meta v1) (v_quant v1) (v_const v1) in
             Ok (dset name (maybe_quant qs name v) cur, keys ++ [name])
         end
     end.
